@@ -135,6 +135,10 @@ impl<K, V, S> HashMap<K, V, S> {
     pub open spec fn present<Q: ?Sized>(&self, q: &Q) -> bool {
         exists|b: Bucket<(K, V)>| #[trigger] self.table.valid_bucket(b) && key_eq::<Q, K>(q, &self.table.elem(b).0)
     }
+    /// some stored pair has a key equal to `x`'s and a value equal (`PartialEq`) to `x`'s
+    pub open spec fn has_equal(&self, x: (K, V)) -> bool where V: PartialEq {
+        exists|b: Bucket<(K, V)>| #[trigger] self.table.valid_bucket(b) && key_eq::<K, K>(&x.0, &self.table.elem(b).0) && x.1.eq_spec(&self.table.elem(b).1)
+    }
     /// no stored key equals `q`
     pub open spec fn absent<Q: ?Sized>(&self, q: &Q) -> bool { raw_absent::<Q, K, V>(self.table, q) }
     /// `self` is `o` with the element designated by `item` overwritten by `x` (same builder)
